@@ -244,7 +244,7 @@ def evaluate(case: dict) -> list[Violation]:
 
 
 def shards(tier: str, seed: int) -> list[dict]:
-    n_sh, per = (16, 120) if tier == "quick" else (48, 700)
+    n_sh, per = (16, 120) if tier == "quick" else (48, 500)
     return [{"seed": seed * 1000 + i, "n": per} for i in range(n_sh)]
 
 
